@@ -58,6 +58,8 @@ use crate::{
 pub(super) mod computation_graph;
 pub(super) mod guard;
 pub(super) mod yielder;
+#[cfg(feature = "verif_hooks")]
+pub mod verif;
 
 /// Specifies how often the engine should yield to the async runtime during
 /// long-running query executions.
